@@ -187,12 +187,12 @@ Definition vr_ok (g : cfg) (v : vreq) : Prop :=
 
 Lemma from_jwt_ok g fb w v :
   from_jwt g fb w = FOk v ->
-  exists alg claims sg, w = WObj alg claims sg /\ v_alg v = alg /\ v_claims v = claims /\ claims_modelled claims = true /\
+  exists alg claims sg, open_wrapper w = WObj alg claims sg /\ v_alg v = alg /\ v_claims v = claims /\ claims_modelled claims = true /\
     ((alg_kind alg = AlgNone /\ v_key v = None) \/
      (exists kt n s cands, alg_kind alg = AlgK kt /\ v_key v = Some n /\ sg = Some s /\ s_key s = n /\ s_alg s = alg
         /\ s_claims s = claims /\ lookup_keys g (iss_for claims fb) kt (kid_of sg) = Some cands /\ In n cands)).
 Proof.
-  unfold from_jwt. destruct w as [|alg claims sg]; [discriminate|].
+  unfold from_jwt. destruct (open_wrapper w) as [|alg claims sg|h i] eqn:Ew; [discriminate| |discriminate].
   destruct (claims_modelled claims) eqn:Em; cbn [negb]; [|discriminate].
   destruct (alg_kind alg) as [|kt|] eqn:Ea; [| |discriminate].
   - intro H; inversion H; subst. exists alg, claims, sg. cbn. repeat split; auto.
@@ -809,7 +809,7 @@ Section Unforgeable.
     intros H Hk. apply from_jwt_ok in H as [alg [claims [sg [Hw [Ha [Hc [_ H]]]]]]].
     destruct H as [[_ H]|[kt [n [s [cands [_ [H2 [H3 [H4 [H5 [H6 _]]]]]]]]]]]; [congruence|].
     assert (Hn : n = k0) by congruence. rewrite Hn in H4. split.
-    - rewrite Hw, H3. cbn. rewrite H4, H5, H6, Ha, Hc. reflexivity.
+    - unfold wobj_sig_term. rewrite Hw, H3. cbn. rewrite H4, H5, H6, Ha, Hc. reflexivity.
     - intro Hd. unfold sig_term in *. eapply sig_genuine; eauto.
   Qed.
 End Unforgeable.
@@ -1096,4 +1096,162 @@ Proof.
   destruct (par_count g d t0 (pre ++ OPush pusher body w u :: post)) as [H1 H2].
   - rewrite E. constructor; [intros []|constructor].
   - rewrite E in H1, H2. split; [exact H2|]. intros x Hx. destruct (H1 x Hx) as [<-|[]]. reflexivity.
+Qed.
+
+(* ================================================================ the encrypted wrapper adds no authority
+   Everything that decides about a request object sees open_wrapper w: what is inside the JWE, a bare JSON plaintext
+   standing for an unsigned object.  Pushing a wrapped object is pushing its content; by value a wrapped object is
+   handled exactly like its content when RequestParam is not among the client-authentication methods or the wrapper
+   says cty "JWT" (RequestParam reads a wrapper without cty differently: it takes `iss` of JSON plaintext as the
+   client, see request_param; the soundness theorems above hold there all the same); a wrapped document behind a
+   request_uri never takes effect. *)
+Lemma open_wrapper_idem w : open_wrapper (open_wrapper w) = open_wrapper w.
+Proof. destruct w as [| |h i]; auto. cbn. destruct (j_state h); auto. destruct i; auto. Qed.
+
+Lemma from_jwt_open g fb w : from_jwt g fb w = from_jwt g fb (open_wrapper w).
+Proof. unfold from_jwt. now rewrite open_wrapper_idem. Qed.
+
+Lemma merge_obj_open strict g p w : merge_obj strict g p (Some w) = merge_obj strict g p (Some (open_wrapper w)).
+Proof. unfold merge_obj. destruct (assoc k_request p) as [[s|l]|]; auto. now rewrite (from_jwt_open g None w). Qed.
+
+Lemma verify_authz_open g p w : verify_authz g p (Some w) = verify_authz g p (Some (open_wrapper w)).
+Proof. unfold verify_authz. now rewrite (merge_obj_open true g p w). Qed.
+
+Lemma par_parse_open g st pusher body w :
+  par_parse g st pusher body (Some w) = par_parse g st pusher body (Some (open_wrapper w)).
+Proof.
+  unfold par_parse. destruct (find_client (clients g) pusher); auto. destruct (negb (outer_modelled body)); auto.
+  cbv zeta. now rewrite (merge_obj_open false g _ w).
+Qed.
+
+Lemma par_process_open g st r w urn :
+  par_process g st r (Some w) urn = par_process g st r (Some (open_wrapper w)) urn.
+Proof. unfold par_process. cbv zeta. now rewrite (merge_obj_open true g _ w). Qed.
+
+Theorem push_open g d st pusher body w urn :
+  step g d st (OPush pusher body (Some w) urn) = step g d st (OPush pusher body (Some (open_wrapper w)) urn).
+Proof.
+  cbn [step]. rewrite (par_parse_open g st pusher body w).
+  destruct (par_parse g st pusher body (Some (open_wrapper w))); auto.
+  now rewrite (par_process_open g st r w urn).
+Qed.
+
+Lemma authn_loop_rp g p w w' : request_param g w = request_param g w' ->
+  forall ms, authn_loop g ms p (Some w) = authn_loop g ms p (Some w').
+Proof.
+  intros E ms. induction ms as [|m r IH]; [reflexivity|]. destruct m; cbn [authn_loop].
+  - destruct (has_key k_request p); auto. rewrite E. destruct (request_param g w'); auto.
+  - destruct (assoc k_client_id p) as [[c|l]|]; auto.
+  - reflexivity.
+Qed.
+
+Lemma authn_loop_no_rp g p w w' : forall ms, ~ In MReqParam ms -> authn_loop g ms p w = authn_loop g ms p w'.
+Proof.
+  induction ms as [|m r IH]; intro H; [reflexivity|]. destruct m; cbn [authn_loop].
+  - exfalso. apply H. now left.
+  - destruct (assoc k_client_id p) as [[c|l]|]; auto. apply IH. intro Hx. apply H. now right.
+  - reflexivity.
+Qed.
+
+Lemma rp_cty_same g w : opens_on_claims w -> request_param g w = request_param g (open_wrapper w).
+Proof.
+  destruct w as [| |h i]; auto. intros [Hs [Hc Hi]]. cbn [request_param open_wrapper]. rewrite Hs, Hc.
+  destruct i as [a c s|c|]; [reflexivity|reflexivity|congruence].
+Qed.
+
+Theorem authz_open g d st outer w :
+  (~ In MReqParam (methods g) \/ opens_on_claims w) ->
+  authz_parse g d st outer (Some w) = authz_parse g d st outer (Some (open_wrapper w)).
+Proof.
+  intro H.
+  assert (E : authn_loop g (methods g) outer (Some w) = authn_loop g (methods g) outer (Some (open_wrapper w))).
+  { destruct H as [H|H]; [now apply authn_loop_no_rp|]. apply authn_loop_rp. now apply rp_cty_same. }
+  unfold authz_parse. rewrite E.
+  destruct (authn_loop g (methods g) outer (Some (open_wrapper w))) as [c m| | |t| |]; auto.
+  - now rewrite (verify_authz_open g _ w).
+  - destruct (methods_configured g); auto. now rewrite (verify_authz_open g _ w).
+  - now rewrite (verify_authz_open g _ w).
+Qed.
+
+(* a wrapped document fetched from a request_uri never takes effect: an accepted outcome of _do_request_uri for
+   that uri can only be a pushed request stored under it *)
+Theorem wrapped_doc_no_effect g d st r cid st' r' via ru h i :
+  do_request_uri g d st r cid = (st', Acc r', via) ->
+  assoc k_request_uri (r_params r) = Some (PS_ ru) -> ru <> [] -> assoc ru d = Some (WEnc h i) ->
+  via = Some ru /\ exists e, In (ru, e) (par_db st) /\ r' = e_req e.
+Proof.
+  intros H Hru Hne Hd. unfold do_request_uri in H. rewrite Hru in H. destruct ru as [|ch ru']; [congruence|].
+  rewrite Hd in H. cbn [is_wrapped] in H.
+  repeat match type of H with
+  | context [match ?x with _ => _ end] => destruct x eqn:?
+  | context [if ?b then _ else _] => destruct b eqn:?
+  end; inversion H; subst; clear H.
+  split; auto.
+  match goal with H : assoc _ (par_db st) = Some ?e |- _ => exists e; apply assoc_In' in H; auto end.
+Qed.
+
+(* by value: the verified object attached to an accepted request is the verification of the wrapper's CONTENT *)
+Theorem value_verified_is_content g d st outer w st' r via v :
+  authz_parse g d st outer (Some w) = (st', Acc r, via) -> assoc k_request_uri outer = None -> r_vr r = Some v ->
+  from_jwt g None (open_wrapper w) = FOk v.
+Proof.
+  intros H Ho Hv. apply authz_parse_acc_outer in H as [p [cid [r1 [Hver [Hrun Hp]]]]].
+  apply verify_authz_acc in Hver. rewrite Ho in Hp.
+  pose proof (merge_no_request_uri _ _ _ _ Hver Hp) as Hn.
+  apply rh_strict in Hrun as [H1 _]; auto.
+  apply merge_obj_ok in Hver as [_ [_ Hs]]. rewrite H1 in Hv. destruct (Hs v Hv) as [w' [Hw [Hf _]]].
+  inversion Hw; subst w'. now rewrite <- from_jwt_open.
+Qed.
+
+Lemma state_after_ok g d t0 pre : store_ok g (state_after g d t0 pre).
+Proof.
+  unfold state_after. generalize (init_store_ok g t0). generalize (init t0).
+  induction pre as [|o rest IH]; intros st Hs; cbn [fold_left]; auto.
+  apply IH. destruct (step g d st o) eqn:E. cbn [fst]. eapply step_store_ok; eauto.
+Qed.
+
+(* C16's soundness statement over wrapped objects, after any history, by value: what was verified is the content
+   of the wrapper, and it is authenticated for the client the request is attributed to *)
+Theorem value_wrapped_sound g d t0 pre outer w st' r via v :
+  cfg_wf g = true ->
+  authz_parse g d (state_after g d t0 pre) outer (Some w) = (st', Acc r, via) ->
+  assoc k_request_uri outer = None -> r_vr r = Some v ->
+  from_jwt g None (open_wrapper w) = FOk v /\ authenticated g r v.
+Proof.
+  intros Hwf H Ho Hv. split; [eapply value_verified_is_content; eauto|].
+  apply cfg_wf_sound in Hwf as [W1 W2].
+  exact (authz_authenticated _ _ _ _ _ _ _ _ (state_after_ok g d t0 pre) W1 W2 H v Hv).
+Qed.
+
+(* claims that nobody signed, inside a wrapper: accepted only as an unsigned object, i.e. only where "none" is a
+   permitted algorithm for the client the request is attributed to - exactly where an unsigned plain object is *)
+Theorem wrapped_unsigned g d t0 pre outer h c st' r via v :
+  cfg_wf g = true ->
+  authz_parse g d (state_after g d t0 pre) outer (Some (WEnc h (IJson c))) = (st', Acc r, via) ->
+  assoc k_request_uri outer = None -> r_vr r = Some v ->
+  v_alg v = s_none /\ v_key v = None /\ v_claims v = c /\
+  exists cid ci, assoc k_client_id (r_params r) = Some (PS_ cid) /\ find_client (clients g) cid = Some ci /\
+                 allowed g ci s_none = true.
+Proof.
+  intros Hwf H Ho Hv.
+  destruct (value_wrapped_sound _ _ _ _ _ _ _ _ _ _ Hwf H Ho Hv) as [Hf [cid [ci [A1 [A2 [A3 _]]]]]].
+  apply from_jwt_ok in Hf as [alg [claims [sg [Hw [Ha [Hc [_ Hk]]]]]]].
+  rewrite open_wrapper_idem in Hw. cbn [open_wrapper unwrapped] in Hw. destruct (j_state h); try discriminate.
+  injection Hw as E1 E2 E3.
+  destruct Hk as [[_ Hk]|[kt [n [s [cands [_ [_ [Hs _]]]]]]]]; [|congruence].
+  assert (Hal : v_alg v = s_none) by congruence.
+  repeat split; auto; try congruence. exists cid, ci. rewrite Hal in A3. auto.
+Qed.
+
+Corollary wrapped_unsigned_registered g d t0 pre outer h c st' r via v :
+  cfg_wf g = true ->
+  authz_parse g d (state_after g d t0 pre) outer (Some (WEnc h (IJson c))) = (st', Acc r, via) ->
+  assoc k_request_uri outer = None -> r_vr r = Some v ->
+  forall cid ci s, assoc k_client_id (r_params r) = Some (PS_ cid) -> find_client (clients g) cid = Some ci ->
+    c_reg ci = RStr s -> s = s_none.
+Proof.
+  intros Hwf H Ho Hv cid ci s Hc Hf Hr.
+  destruct (wrapped_unsigned _ _ _ _ _ _ _ _ _ _ _ Hwf H Ho Hv) as [_ [_ [_ [cid' [ci' [B1 [B2 B3]]]]]]].
+  assert (cid' = cid) by congruence. subst cid'. assert (ci' = ci) by congruence. subst ci'.
+  symmetry. eapply allowed_registered; eauto.
 Qed.
